@@ -2,6 +2,7 @@
 #pragma once
 #include "a_common.hpp"
 #include "a_static.hpp"
+#include <deque>
 #include "a_seg.hpp"
 #include "pgm/pgm_index.hpp"
 #include <cstring>
@@ -92,11 +93,12 @@ struct PgmClass {
         draw_env(p, env, large, g.tsan);
         sim::Env e = env_from_plan(p);
         std::string sig;
-        bool scale = scale_slot(g) && std::is_integral_v<K> && g.prop != "C04";
-        if (scale) sig = set_scale_recipe<K>(p, E, cfg, work, false, std::is_same_v<F, float>);
+        bool scale = scale_slot(g) && std::is_integral_v<K> && (g.prop != "C04" || sizeof(K) == 8);
+        if (scale) sig = set_scale_recipe<K>(p, E, cfg, work, false, std::is_same_v<F, float>, g.prop == "C04");
         else sig = gen_keys_into<K>(p, n, E, chunks_for(e, n), cfg, work, short_segments);
         p.set("motifs", sig);
         p.set("qseed", work.next() >> 1);
+        if (!scale && cfg.chance(120)) p.set("container", "deque"); // random access, not contiguous
         if (!scale) p.set("qmax", large ? 1500 : 2000);
         // schedule-independence: large runs are built a second time under another schedule
         p.set("sched2", large && cfg.chance(500) ? (env.next() >> 1) | 1 : 0);
@@ -119,7 +121,8 @@ struct PgmClass {
         sim::g_record_points = rc.prop == "C04"; // C04 needs the points of every level (hook H1)
         Index *idx = nullptr;
         try {
-            idx = new Index(data.begin(), data.end());
+            if (p.get("container") == "deque") { std::deque<K> dq(data.begin(), data.end()); st.inc("reach.range_from_deque"); idx = new Index(dq.begin(), dq.end()); }
+            else idx = new Index(data.begin(), data.end());
         } catch (const std::exception &e) {
             sim::g_record_points = false;
             sim::end_run();
